@@ -261,7 +261,7 @@ CHECKS = {
         note="Trusted: Lean kernel; axioms propext/Quot.sound/Classical.choice; atomicity of one model transition (lock + the lock-free work that follows, which touches only connections the thread owns — exclusivity is proved for the model and checked per replayed schedule for the code); the schedule controller and the verif-hooks scheduling points; the loopback peer's log; model + harness. ",
         technique="Lean 4 proof (shutdown invariants of the pool transition system) + refinement check: shutdown forced at every position of the schedules of the real pools"),
     "C19": dict(
-        category="model+correspondence",
+        category="other",
         text="Partial by nature: panics, stack depth and running time are runtime facts. What is proved (Props/C19.lean) is about the models: "
              "every model function is total (Lean's termination checker, no partial definitions) and the modelled kernels produce output "
              "linear in their input (crlf_at_most_doubles, relaxed_body_no_growth, relaxed_headers_no_growth, base64_length). What is checked "
@@ -289,6 +289,7 @@ def main():
         if pid not in CHECKS:
             continue
         c = CHECKS[pid]
+        assert c["category"] in ("exploration", "fault_enumeration", "model_checking", "proof", "translation_validation", "other"), pid
         checks.append({
             "property_id": pid,
             "quick_cmd": f"./check {pid} --tier quick",
